@@ -1,0 +1,43 @@
+//go:build verif
+
+package lock
+
+// Contracts for govc (contract-based deductive verification; see /verif/DESIGN.md).
+// This file holds only comments and is compiled only with -tags verif.
+//
+// C13, lock.Context: the one-slot channel c.locked is a token. Ghost c.tokens counts the units of it that the
+// current goroutine owns (thread-local: +1 when its send on c.locked succeeds, -1 when it receives). Proved: an
+// acquisition that reports an error holds nothing, a successful one holds exactly one more unit, a release gives
+// one unit back. Mutual exclusion is the semantics of a 1-buffered channel and of sync.RWMutex (assumed);
+// OuterCancel's goroutine protocol is not covered.
+
+//@ type Context
+//@   ghost tokens int
+
+//@ func (*Context).Lock
+//@   tags C13 C07
+//@   requires c != nil && ctx != nil
+//@   ensures [C13.ctxlock.err] result != nil ==> c.tokens == old(c.tokens)
+//@   ensures [C13.ctxlock.ok] result == nil ==> c.tokens == old(c.tokens) + 1
+//@   at select#0 ghost c.tokens = c.tokens + (res0 == 1 ? 1 : 0)
+//@   at call Err#0 assume res0 != nil
+
+//@ func (*Context).RLock
+//@   tags C13 C07
+//@   requires c != nil && ctx != nil
+//@   ensures [C13.ctxrlock.err] result != nil ==> c.tokens == old(c.tokens)
+//@   ensures [C13.ctxrlock.ok] result == nil ==> c.tokens == old(c.tokens) + 1
+//@   at select#0 ghost c.tokens = c.tokens + (res0 == 1 ? 1 : 0)
+//@   at call Err#0 assume res0 != nil
+
+//@ func (*Context).Unlock
+//@   tags C13 C07
+//@   requires c != nil && c.tokens >= 1
+//@   ensures [C13.ctxunlock] c.tokens == old(c.tokens) - 1
+//@   at recv#0 ghost c.tokens = c.tokens - 1
+
+//@ func (*Context).RUnlock
+//@   tags C13 C07
+//@   requires c != nil && c.tokens >= 1
+//@   ensures [C13.ctxrunlock] c.tokens == old(c.tokens) - 1
+//@   at recv#0 ghost c.tokens = c.tokens - 1
